@@ -1028,6 +1028,8 @@ func genPen(o *out.W, i int, r *rng.R, fonts []*fontInfo) {
 			glyphs = append(glyphs, g)
 		}
 	}
+	// the face's scale, computed here (not read from the face): millimetres per font unit at the face's (already scaled) size
+	mmPerEm := face.Size / float64(face.Font.Head.UnitsPerEm)
 	ppem := face.PPEM(canvas.DefaultResolution)
 	var gp *canvas.Path
 	var gadv, gw float64
@@ -1060,7 +1062,7 @@ func genPen(o *out.W, i int, r *rng.R, fonts []*fontInfo) {
 	for _, g := range glyphs {
 		px, py := x+g.XOffset, y+g.YOffset
 		plac = append(plac, fmt.Sprintf("(%s, %s)", cq.Z(int64(px)), cq.Z(int64(py))))
-		_ = face.Font.GlyphPath(exp, g.ID, ppem, face.MmPerEm*float64(px), face.MmPerEm*float64(py), face.MmPerEm, font.NoHinting)
+		_ = face.Font.GlyphPath(exp, g.ID, ppem, mmPerEm*float64(px), mmPerEm*float64(py), mmPerEm, font.NoHinting)
 		x += g.XAdvance
 		y += g.YAdvance
 		if !g.Vertical {
@@ -1071,8 +1073,8 @@ func genPen(o *out.W, i int, r *rng.R, fonts []*fontInfo) {
 		}
 		gs = append(gs, fmt.Sprintf("(mkPg %s %s %s %s %s)", cq.Z(int64(g.XAdvance)), cq.Z(int64(g.YAdvance)), cq.Z(int64(g.XOffset)), cq.Z(int64(g.YOffset)), cq.Bool(g.Vertical)))
 	}
-	okAdv := gadv == face.MmPerEm*float64(x)
-	okW := gw == face.MmPerEm*float64(w)
+	okAdv := gadv == mmPerEm*float64(x)
+	okW := gw == mmPerEm*float64(w)
 	okPath := gp.String() == exp.String()
 	agree := gadv == gw
 	pubOK := true
